@@ -5,10 +5,7 @@ package scanner
 // ast.IsValidIdent on whole inputs. (Also the scanner part of C02.)
 
 import (
-	verifapd "github.com/cockroachdb/apd/v3"
-
 	verifast "cuelang.org/go/cue/ast"
-	verifliteral "cuelang.org/go/cue/literal"
 	veriftoken "cuelang.org/go/cue/token"
 )
 
@@ -63,32 +60,6 @@ func verifScanOne(src string, k1, k2 veriftoken.Token) (bool, veriftoken.Token) 
 	}
 	_, tok3, _ := s.Scan()
 	return tok3 == veriftoken.EOF && errs == 0, tok
-}
-
-// The value of a literal with a multiplier is computed with apd and is checked
-// under C06; here only the spelling matters.
-//
-//verif:stub (*cuelang.org/go/cue/literal.NumInfo).decimal verifStubNumDecimal
-func verifStubNumDecimal(p *verifliteral.NumInfo, v *verifapd.Decimal) error { return nil }
-
-func verifHarnessScanNumAgree() {
-	n := verifParam("N", 4)
-	s := verifStringUpTo(n)
-	one, tok := verifScanOne(s, veriftoken.INT, veriftoken.FLOAT)
-	var info verifliteral.NumInfo
-	err := verifliteral.ParseNum(s, &info)
-	parses := err == nil && len(s) > 0 && s[0] != '-' && s[0] != '+'
-	verifReach("decided")
-	// known-finding region predicates
-	verifPublish("leading-zero-then-underscore", len(s) >= 2 && s[0] == '0' && s[1] == '_')
-	verifPublish("mantissa-starts-with-underscore", len(s) >= 1 && s[0] == '_' || len(s) >= 2 && s[0] == '.' && s[1] == '_')
-	if one {
-		verifAssert(parses, "A09.3-scanned-number-parses")
-		verifAssert(info.IsInt() == (tok == veriftoken.INT), "A09.3-int-float-kind-agrees")
-	}
-	if parses {
-		verifAssert(one, "A09.3-parsable-number-scans-as-one-token")
-	}
 }
 
 func verifHarnessScanIdentAgree() {
